@@ -279,6 +279,13 @@ C05_RejectedIsNoopStep ==
      => (UNCHANGED <<procs, queue, spawn>> /\ lastOut' = <<>>)
 C05_RejectedIsNoop == [][C05_RejectedIsNoopStep]_vars
 
+(* only a LIVE process takes actions: without keep_processes a process that has delivered its *)
+(* terminal event is gone, whatever was still open in it                                      *)
+C05_LiveProcessStep ==
+  (lastAct'.a = "Act" /\ lastRes' = "ok" /\ ~Keep) =>
+     (procs[lastAct'.pid].st # "absent" /\ procs[lastAct'.pid].ev.term = 0)
+C05_LiveProcess == [][C05_LiveProcessStep]_vars
+
 -----------------------------------------------------------------------------
 (* C06 *)
 (* an error that no catch took has climbed: the parent carries the same code, *)
@@ -344,7 +351,10 @@ V_C08_AtMostOne ==
   UNION { { V("C08_AtMostOne", pid, t,
               {k \in {"KF_nested_review_dup"} :
                  KF_nested_review_dup(pid, t) /\ TS(pid, t).mcre <= 1}
-              \cup {k \in {"KF_step_timeout_review"} : FiredStepRule(pid, t) /\ TS(pid, t).mcre <= 1})
+              \cup {k \in {"KF_step_timeout_review"} : FiredStepRule(pid, t) /\ TS(pid, t).mcre <= 1}
+              \* (the flow has finished past a step re-created by `back` to an enclosing step; what
+              \* the re-created step then does ends its finished ancestors a second time)
+              \cup {k \in {"KF_back_enclosing"} : KF_back_enclosing_anc(pid, t) /\ TS(pid, t).mcre <= 1})
             : t \in { x \in TaskKeys(pid) : TS(pid, x).mcre > 1 \/ TS(pid, x).mterm > 1 } }
           : pid \in LivePids }
 
